@@ -241,7 +241,7 @@ class Job:
 
     def __init__(self, pkg, harness, args="", tier="quick", workers=4, maxsteps=None, init=None, maporder=None,
                  timeout=None, maxpaths=None, qtimeout=None, allow_unsupported=(), allow_inconclusive=False,
-                 maxfan=None, note="", witnesses=40, native=True, order_repeats=0, no_complete_ok=False, hang_timeout=8.0):
+                 maxfan=None, note="", witnesses=40, native=True, order_repeats=0, no_complete_ok=False, hang_timeout=5.0):
         self.pkg, self.harness, self.args, self.tier = pkg, harness, str(args), tier
         self.workers, self.maxsteps, self.init, self.maporder = workers, maxsteps, init, maporder
         self.timeout, self.maxpaths, self.qtimeout = timeout, maxpaths, qtimeout
@@ -396,6 +396,7 @@ def run_check(pid, tier):
             cov["unsupported_paths"] += res["unsupported"]
             cov["ssa_steps"] += res["steps"]
             cov["functions_encoded"].update(res["functions"] or [])
+            cov.setdefault("environment_stubs", set()).update(res.get("stubs") or [])
             cov["jobs"].append({"job": j.key(), "paths": res["paths"], "decisions": res["decisions"], "queries": res["queries"],
                                 "solver_s": round(res["solver_s"], 2), "wall_s": round(res["wall_s"], 2),
                                 "max_path_steps": res["max_path_steps"], "violations": len(res["violations"] or []),
@@ -412,8 +413,9 @@ def run_check(pid, tier):
                 if not j.allow_inconclusive:
                     machinery.append("%s: %d inconclusive solver answers: %s" % (j.key(), res["inconclusive"], res["inconclusive_reasons"]))
             if not j.no_complete_ok:
+                viol_args = {v["args"] for v in res["violations"] or []}
                 for a in res["argsets"]:
-                    if not res["completed"].get(a):
+                    if not res["completed"].get(a) and a not in viol_args:
                         # vacuity guard (reachability witness): some path must reach the end of the harness
                         machinery.append("%s: no path of argset (%s) reached the end of the harness (vacuous?)" % (j.key(), a))
             binp = nat_fut[j.pkg].result() if j.native else None
@@ -442,7 +444,17 @@ def run_check(pid, tier):
                 for w in res["witnesses"][:2]:
                     cov["samples"].append({"harness": j.harness, "args": w["args"], "inputs": decode_inputs(w["inputs"])})
             # counterexample replay
+            vf = spec.get("viol_filter")
+            todo = []
             for vi, v in enumerate(res["violations"] or []):
+                if vf and not re.search(vf, v["msg"]):
+                    cov.setdefault("violations_of_other_properties_ignored", 0)
+                    cov["violations_of_other_properties_ignored"] += 1
+                    continue
+                todo.append((vi, v))
+
+            def confirm(item, j=j, binp=binp):
+                vi, v = item
                 tape = os.path.join(tmp, "v_%d_%d.tape" % (id(j) % 100000, vi))
                 write_tape(tape, j.harness, v["args"], v["inputs"])
                 order = any(iv["kind"] == "m" for iv in (v["inputs"] or []))
@@ -465,6 +477,8 @@ def run_check(pid, tier):
                             confirmed = nr["status"] == "panic"
                         elif v["kind"] == "frozen-write":
                             confirmed = nr["status"] == "assert"
+                return v, confirmed, nr
+            for v, confirmed, nr in pool.map(confirm, todo):
                 if not confirmed:
                     machinery.append("%s: counterexample did not reproduce natively: kind=%s msg=%s args=%s inputs=%s native=%s" % (
                         j.key(), v["kind"], v["msg"], v["args"], decode_inputs(v["inputs"]),
@@ -502,6 +516,7 @@ def run_check(pid, tier):
                 exit_code = 2
 
         cov["functions_encoded"] = sorted(cov["functions_encoded"])
+        cov["environment_stubs"] = sorted(cov.get("environment_stubs", []))
         cov["solver_s"] = round(cov["solver_s"], 2)
         cov["bounds"] = spec.get("bounds_" + tier, spec.get("bounds", ""))
         cov["outside_bounds"] = spec.get("outside", "")
